@@ -87,6 +87,11 @@ def _worker_chunk(args):
             scn = mod.gen(seed, tier)
             out = run_one(mod, scn)
             merge_run(agg, seed, scn, out)
+            if agg['samples'] and 'events' not in agg['samples'][0] and agg['samples'][0]['seed'] == seed:
+                # one sample per chunk carries the head of its event log (re-executed with logging on)
+                logged = run_one(mod, scn, want_log=True)
+                agg['samples'][0]['events'] = json.loads(json.dumps((logged.get('log') or [])[:40], default=str))
+                agg['samples'][0]['event_log_digest'] = logged.get('digest')
         return freeze_agg(agg)
     finally:
         faulthandler.cancel_dump_traceback_later()
